@@ -68,7 +68,8 @@ static std::pair<long, int> run_history(const uint8_t* data, size_t size, bool c
     int mode = (int)pick(f, 4);
     std::string rule = "type='signal',sender='org.freedesktop.DBus',interface='org.freedesktop.DBus',member='NameOwnerChanged'";
     if (mode == 3) return;  // no rule at all
-    if (mode == 2) { std::string n = pool[pick(f, 3)]; rule += ",arg0='" + n + "'"; model.conns[mc[i]].noc_arg0.insert(n); } else model.conns[mc[i]].noc_all = true;
+    if (mode == 2) { std::string n = pool[pick(f, 3)]; rule += ",arg0='" + n + "'"; }
+    { MatchRule mr; std::string why; if (parse_match_rule(rule, &mr, &why) != RuleParse::Ok) fail("setup", "harness rule does not parse: " + why); model.add_match(mc[i], mr); }
     RecvFrame r; std::vector<RecvFrame> oth;
     sync_call(bus, cl[i], "AddMatch", {Value::str('s', rule)}, &r, &oth);
     g_log.push_back("client" + std::to_string(i) + " AddMatch " + rule);
